@@ -28,6 +28,11 @@ func (k msgServer) UpdateParams(goCtx context.Context, req *types.MsgUpdateParam
 		"params.Authority", req.Authority,
 	)
 
+	// stateless validation (also done by ValidateBasic for transactions; repeated for direct callers)
+	if err := req.Params.Validate(); err != nil {
+		return nil, err
+	}
+
 	// validate the existence of the epoch (stateful)
 	epochIdentifier := req.Params.EpochIdentifier
 	_, found := k.epochsKeeper.GetEpochInfo(ctx, epochIdentifier)
